@@ -137,6 +137,42 @@ fn call(g: &Arc<G>, t: &mut Toks, o: &mut Out) {
                 }
             }
         }
+        "pathcount" => {
+            // all shortest paths to ONE far node (target given): how many, how many distinct, how many are real
+            // paths of the graph of exactly the reported length (completeness beyond any fixed count)
+            let s0 = sources[0];
+            let tgt = target.unwrap_or(s0);
+            let g2 = g.clone();
+            let r = watched(o, move || dijkstra::single_source(&*g2, weighted, s0, None, None, false, true));
+            match r {
+                Some(Ok(m)) => match m.get(&tgt) {
+                    Some(info) => {
+                        let mut set = std::collections::HashSet::new();
+                        let mut valid = 0i64;
+                        for p in &info.paths {
+                            set.insert(p.clone());
+                            let mut len = 0.0;
+                            let mut ok = p.first() == Some(&s0) && p.last() == Some(&tgt);
+                            for w2 in p.windows(2) {
+                                let ws: Vec<f64> = g.get_all_edges().iter()
+                                    .filter(|e| (e.u == w2[0] && e.v == w2[1]) || (!g.specs.directed && e.u == w2[1] && e.v == w2[0]))
+                                    .map(|e| if weighted { e.weight } else { 1.0 }).collect();
+                                match ws.iter().cloned().fold(None, |a: Option<f64>, b| Some(a.map_or(b, |x| x.min(b)))) {
+                                    Some(x) => len += x,
+                                    None => ok = false,
+                                }
+                            }
+                            if ok && len == info.distance {
+                                valid += 1;
+                            }
+                        }
+                        o.obs(5084, &[vec![info.paths.len() as i64, set.len() as i64, valid]], &[info.distance / sc]);
+                    }
+                    None => o.obs(5084, &[vec![-1, 0, 0]], &[]),
+                },
+                _ => o.obs(5084, &[vec![-2, 0, 0]], &[]),
+            }
+        }
         "cutsweep" => {
             // C08's cutoff clause on the implementation's OWN distances (no recomputation, so inexact weights are
             // fine): for every distance d the unrestricted search reports, the search with cutoff = d must return
